@@ -483,3 +483,133 @@ fn k_ff_limb_helpers() {
   let t = (a as u128).wrapping_sub(b as u128 + (carry >> 63) as u128);
   assert!(d == t as u64 && bo == (t >> 64) as u64);
 }
+
+// ---------------------------------------------------------------------------------------------
+// Horner evaluation and Lagrange interpolation over a SMALL-FIELD MODEL of Fp (bounded stand-ins for
+// the contracts of Evaluator::evaluate and interpolate that Verus assumes).  The operator impls of Fp
+// are stubbed by arithmetic in GF(7): an Fp stands for the value `model(f)` (GF(251) made the SAT problems intractable).  What is checked is the
+// real control flow of evaluate / interpolate (iteration order, which points are combined how, where
+// the inverse is taken) against independent textbook formulas; the real 129-bit arithmetic is
+// T-field / C07.
+const Q: u32 = 7;
+/// Montgomery form of one (limbs of Fp::ONE): the only non-model value the real code injects
+fn model(f: &Fp) -> u32 {
+  if eq3(&f.0, &Fp::ONE.0) { 1 } else { (f.0[0] % Q as u64) as u32 }
+}
+fn mk(v: u32) -> Fp { Fp([(v % Q) as u64, 0, 0]) }
+fn sm_mul(a: Fp, b: Fp) -> Fp { mk(model(&a) * model(&b)) }
+fn sm_add(a: Fp, b: Fp) -> Fp { mk(model(&a) + model(&b)) }
+fn sm_add_ref<'r>(a: Fp, b: &'r Fp) -> Fp where 'r: 'r { mk(model(&a) + model(b)) }
+fn sm_sub(a: Fp, b: Fp) -> Fp { mk(model(&a) + Q - model(&b)) }
+fn pow_q(v: u32, e: u32) -> u32 {
+  // square-and-multiply, 8 fixed steps (e < 256), loop-free
+  let mut r = 1u32;
+  let mut b = v % Q;
+  r = if e & 1 != 0 { r * b % Q } else { r }; b = b * b % Q;
+  r = if e & 2 != 0 { r * b % Q } else { r }; b = b * b % Q;
+  r = if e & 4 != 0 { r * b % Q } else { r }; b = b * b % Q;
+  r = if e & 8 != 0 { r * b % Q } else { r }; b = b * b % Q;
+  r = if e & 16 != 0 { r * b % Q } else { r }; b = b * b % Q;
+  r = if e & 32 != 0 { r * b % Q } else { r }; b = b * b % Q;
+  r = if e & 64 != 0 { r * b % Q } else { r }; b = b * b % Q;
+  r = if e & 128 != 0 { r * b % Q } else { r };
+  r
+}
+fn sm_invert(a: &Fp) -> subtle::CtOption<Fp> {
+  let v = model(a);
+  subtle::CtOption::new(mk(pow_q(v, Q - 2)), subtle::Choice::from((v != 0) as u8))
+}
+fn sm_ct_eq(a: &Fp, b: &Fp) -> subtle::Choice { subtle::Choice::from((model(a) == model(b)) as u8) }
+fn sm_to_repr(f: &Fp) -> FpRepr {
+  let mut b = [0u8; 24];
+  b[0] = model(f) as u8;
+  FpRepr(b)
+}
+fn any_small() -> Fp {
+  let v: u8 = kani::any();
+  kani::assume((v as u32) < Q);
+  mk(v as u32)
+}
+fn ref_horner(c: &[u32], x: u32) -> u32 {
+  let mut acc = 0u32;
+  let mut i = 0;
+  while i < c.len() {
+    acc = (acc * x + c[i]) % Q;
+    i += 1;
+  }
+  acc
+}
+
+macro_rules! small_field {
+  ($name:ident, $unwind:expr, $body:block) => {
+    #[kani::proof]
+    #[kani::unwind($unwind)]
+    #[kani::stub(<Fp as core::ops::Mul<Fp>>::mul, sm_mul)]
+    #[kani::stub(<Fp as core::ops::Add<Fp>>::add, sm_add)]
+    #[kani::stub(<Fp as core::ops::Add<&Fp>>::add, sm_add_ref)]
+    #[kani::stub(<Fp as core::ops::Sub<Fp>>::sub, sm_sub)]
+    #[kani::stub(<Fp as crate::ff::Field>::invert, sm_invert)]
+    #[kani::stub(<Fp as crate::ff::derive::subtle::ConstantTimeEq>::ct_eq, sm_ct_eq)]
+    #[kani::stub(<Fp as crate::ff::PrimeField>::to_repr, sm_to_repr)]
+    fn $name() $body
+  };
+}
+
+// Evaluator::evaluate = Horner, coefficients from highest degree to the constant term, one y per
+// polynomial in order: 2 polynomials of 3 coefficients, symbolic coefficients and point
+small_field!(k_evaluate_horner, 5, {
+  let c0 = [any_small(), any_small(), any_small()];
+  let c1 = [any_small(), any_small(), any_small()];
+  let x = any_small();
+  let ev = Evaluator { polys: vec![c0.to_vec(), c1.to_vec()], x: Fp::ZERO };
+  let s = ev.evaluate(x);
+  assert!(model(&s.x) == model(&x));
+  assert!(s.y.len() == 2);
+  let r0 = ref_horner(&[model(&c0[0]), model(&c0[1]), model(&c0[2])], model(&x));
+  let r1 = ref_horner(&[model(&c1[0]), model(&c1[1]), model(&c1[2])], model(&x));
+  assert!(model(&s.y[0]) == r0);
+  assert!(model(&s.y[1]) == r1);
+});
+
+// interpolate = Lagrange at zero: three points with x in {3, 5, 6} (GF(7)) in a SYMBOLIC ORDER on a symbolic
+// polynomial of degree <= 2 return its constant term (encoded).  (Symbolic x makes the Lagrange
+// identity a nonlinear problem SAT does not finish; with concrete abscissae the weights are constants.)
+small_field!(k_interpolate_lagrange, 5, {
+  let c = [any_small(), any_small(), any_small()];
+  let cm = [model(&c[0]), model(&c[1]), model(&c[2])];
+  let mut xs = [3u32, 5, 6];
+  let s01: bool = kani::any();
+  let s12: bool = kani::any();
+  let s02: bool = kani::any();
+  if s01 { xs.swap(0, 1); }
+  if s12 { xs.swap(1, 2); }
+  if s02 { xs.swap(0, 2); }
+  let shares = [
+    Share { x: mk(xs[0]), y: vec![mk(ref_horner(&cm, xs[0]))] },
+    Share { x: mk(xs[1]), y: vec![mk(ref_horner(&cm, xs[1]))] },
+    Share { x: mk(xs[2]), y: vec![mk(ref_horner(&cm, xs[2]))] },
+  ];
+  let r = interpolate(&shares);
+  assert!(r.is_ok());
+  let v = r.unwrap();
+  assert!(v.len() == 24);
+  assert!(v[0] as u32 == cm[2]);
+});
+
+// two points with SYMBOLIC distinct x on a symbolic line
+small_field!(k_interpolate_lagrange_2, 5, {
+  let c = [any_small(), any_small()];
+  let cm = [model(&c[0]), model(&c[1])];
+  let x0 = any_small();
+  let x1 = any_small();
+  kani::assume(model(&x0) != model(&x1));
+  let shares = [
+    Share { x: x0, y: vec![mk(ref_horner(&cm, model(&x0)))] },
+    Share { x: x1, y: vec![mk(ref_horner(&cm, model(&x1)))] },
+  ];
+  let r = interpolate(&shares);
+  assert!(r.is_ok());
+  let v = r.unwrap();
+  assert!(v.len() == 24);
+  assert!(v[0] as u32 == cm[1]);
+});
